@@ -78,6 +78,37 @@ def chunks (k : Nat) (v : Array Rat) : Array (Array Rat) :=
 
 def showRB (v : Array (Array Rat)) : String := showR (v.foldl (· ++ ·) #[])
 
+/-! ### blocked ILU: the scalar ILU model (`copyDataCsr`, `factorizeNumeric`, `iluSolve`, `runSteps`) instantiated at the
+non-commutative ring of bs×bs rational matrices (`ILUCoreBlocked`: `L_ij ← L_ij · D_jj⁻¹`, `D_ii ← D_ii⁻¹`); vector
+blocks are embedded as matrices whose first column is the vector. -/
+structure BMat (bs : Nat) where
+  a : Array Rat
+deriving DecidableEq
+
+def BMat.mul {bs : Nat} (x y : BMat bs) : BMat bs :=
+  ⟨Array.ofFn (n := bs * bs) fun k =>
+    (List.range bs).foldl (fun acc t => acc + x.a.getD (k.val / bs * bs + t) 0 * y.a.getD (t * bs + k.val % bs) 0) 0⟩
+
+instance {bs : Nat} : Zero (BMat bs) := ⟨⟨Array.replicate (bs * bs) 0⟩⟩
+instance {bs : Nat} : One (BMat bs) := ⟨⟨Array.ofFn (n := bs * bs) fun k => if k.val / bs = k.val % bs then 1 else 0⟩⟩
+instance {bs : Nat} : Add (BMat bs) := ⟨fun x y => ⟨Array.ofFn (n := bs * bs) fun k => x.a.getD k.val 0 + y.a.getD k.val 0⟩⟩
+instance {bs : Nat} : Sub (BMat bs) := ⟨fun x y => ⟨Array.ofFn (n := bs * bs) fun k => x.a.getD k.val 0 - y.a.getD k.val 0⟩⟩
+instance {bs : Nat} : Neg (BMat bs) := ⟨fun x => ⟨x.a.map (- ·)⟩⟩
+instance {bs : Nat} : Mul (BMat bs) := ⟨BMat.mul⟩
+/-- `x / y = x · y⁻¹` (so `1 / d` is `set_inverse`; a singular block yields the zero matrix = "zero pivot") -/
+instance {bs : Nat} : Div (BMat bs) := ⟨fun x y => BMat.mul x ⟨matInv bs y.a⟩⟩
+instance {bs : Nat} : OfNat (BMat bs) 777 := ⟨⟨Array.replicate (bs * bs) 777⟩⟩
+
+/-- vector block → matrix with that first column -/
+def vecToMat (bs : Nat) (v : Array Rat) : BMat bs :=
+  ⟨Array.ofFn (n := bs * bs) fun k => if k.val % bs = 0 then v.getD (k.val / bs) 0 else 0⟩
+
+def matToVec (bs : Nat) (m : BMat bs) : Array Rat := Array.ofFn (n := bs) fun i => m.a.getD (i.val * bs) 0
+
+def toBlockCsr (bs : Nat) (A : Csr Rat) : Csr (BMat bs) :=
+  { rows := A.rows, cols := A.cols, rowPtr := A.rowPtr, colInd := A.colInd,
+    val := (chunks (bs * bs) A.val).map BMat.mk }
+
 def runBlocked (bs : Nat) (ssor : Bool) (ω : Rat) (fidx : List Nat) :
     Csr (Array Rat) → List (Step Rat) → List String → Option (List String)
   | _, [], acc => some acc.reverse
@@ -89,6 +120,10 @@ def runBlocked (bs : Nat) (ssor : Bool) (ω : Rat) (fidx : List Nat) :
       let y := if ssor then Blk.ssorApply (blkOps bs) ω fidx A xb else Blk.sorApply (blkOps bs) ω fidx A xb
       runBlocked bs ssor ω fidx A r (showRB y :: acc)
   | A, _ :: r, acc => runBlocked bs ssor ω fidx A r acc
+
+/-- arrays of the right sizes with arbitrary non-zero content -/
+def garbage (s : IluSym) : IluNum Rat :=
+  { dataL := Array.replicate s.ciL.size 777, dataU := Array.replicate s.ciU.size 777, dataD := Array.replicate s.n 777 }
 
 def handle : P String := do
   let op ← tok
@@ -115,12 +150,24 @@ def handle : P String := do
   | "histb" =>
     let bs ← nat
     let kindS ← tok
-    let _p ← int
+    let pB ← int
     let ω ← rat
     let A ← csrP
     let fidx ← natList
     let steps ← listOf stepP
-    if kindS != "sor" && kindS != "ssor" then pure "NOMODEL"
+    if kindS == "ilu" then
+      let Ab : Csr (BMat bs) := toBlockCsr bs A
+      let stepsB : List (Step (BMat bs)) := steps.map fun st => match st with
+        | .initSymbolic => .initSymbolic | .initNumeric => .initNumeric | .done => .done
+        | .apply x => .apply ((chunks bs x).map (vecToMat bs))
+        | .update v => .update ((chunks (bs * bs) v).map BMat.mk)
+      let c : Cfg (BMat bs) := { kind := .ilu pB, ω := 1, fidx := fidx }
+      match runSteps (fun _ => false) c Ab PState.empty stepsB [] with
+      | .error .abort => pure "ABORT"
+      | .error .exc => pure "EXC"
+      | .ok [] => pure "NONE"
+      | .ok outs => pure (" ".intercalate (outs.map fun y => showRB (y.map (matToVec bs))))
+    else if kindS != "sor" && kindS != "ssor" then pure "NOMODEL"
     else
       let Ab : Csr (Array Rat) :=
         { rows := A.rows, cols := A.cols, rowPtr := A.rowPtr, colInd := A.colInd, val := chunks (bs * bs) A.val }
@@ -136,7 +183,8 @@ def handle : P String := do
     | none => pure "EXC"
     | some s0 =>
       let s := factorizeSymbolic s0 p
-      let f := factorizeNumeric s (copyDataCsr s A)
+      -- `alloc_data` arrays pre-filled with garbage: `copy_data` must overwrite every position
+      let f := factorizeNumeric s (copyDataCsr s A (garbage s))
       let g := factorizeNumericS s (copyDataCsrS s A)
       if f.dataD.any (· = 0) then pure "ABORT"
       else if !(f.dataL == g.dataL && f.dataU == g.dataU && f.dataD == g.dataD && s.wf && s.sorted && s.covers A) then
